@@ -15,47 +15,121 @@ def TxsSorted : List Tx → Prop
 
 /-- `insertTx` keeps the list sorted -/
 theorem C08_insert_sorted (txs : List Tx) (tx : Tx) (h : TxsSorted txs) : TxsSorted (State.insertTx txs tx) := by
-  sorry
+  have key : ∀ a l, TxsSorted (a :: l) ↔ (HeadGt a.hash l ∧ TxsSorted l) := by
+    intro a l
+    cases l with
+    | nil => simp [TxsSorted, HeadGt_nil]
+    | cons b r => simp [TxsSorted, HeadGt_cons]
+  induction txs with
+  | nil => simp [State.insertTx, TxsSorted]
+  | cons t rest ih =>
+    obtain ⟨hh, hr⟩ := (key t rest).mp h
+    unfold State.insertTx
+    split
+    · next heq => rw [key]; rw [heq] at hh; exact ⟨hh, hr⟩
+    · split
+      · next hlt => rw [key, HeadGt_cons]; exact ⟨hlt, h⟩
+      · next hne hlt =>
+        rw [key]
+        refine ⟨HeadGt_insertTx _ _ _ hh ?_, ih hr⟩
+        cases hc : bytesLt t.hash tx.hash with
+        | true => rfl
+        | false => exact absurd (bytesLt_total _ _ hc (by simpa using hlt)) hne
 
 /-- re-inserting the transactions of a sorted list rebuilds the same list -/
 theorem C08_rebuild_sorted (txs : List Tx) (h : TxsSorted txs) : txs.foldl State.insertTx [] = txs := by
-  sorry
+  have hp : ∀ l : List Tx, TxsSorted l → List.Pairwise TxLt l := by
+    intro l
+    induction l with
+    | nil => intro _; exact List.Pairwise.nil
+    | cons a r ih =>
+      intro hs
+      cases r with
+      | nil => exact List.pairwise_singleton _ _
+      | cons b r' =>
+        obtain ⟨hab, hs'⟩ := hs
+        have hb := ih hs'
+        refine List.Pairwise.cons ?_ hb
+        intro c hc
+        rcases List.mem_cons.mp hc with rfl | hc
+        · exact hab
+        · exact bytesLt_trans _ _ _ hab ((List.pairwise_cons.mp hb).1 c hc)
+  simpa using foldl_insertTx_pairwise txs [] (by simpa using hp txs h)
 
 /-- restoring from the block (with the stake set and the trees the header's roots denote) gives back every
     field of the state except the pending tips, which the block does not carry -/
 theorem C08_roundtrip (env : Env) (ss : Sealed) (blk : Block) (h : toBlock env ss = .ok blk) (hs : TxsSorted ss.st.txs) :
     fromBlock blk ss.st.stakes ss.st.coins ss.st.history ss.st.pools =
       { st := { ss.st with tips := 0 }, action := ss.action } := by
-  sorry
+  unfold toBlock at h
+  obtain ⟨hd, hhd, h⟩ := Outcome.bind_eq_ok h
+  cases h
+  unfold headerOf at hhd
+  obtain ⟨p, _, hhd⟩ := Outcome.bind_eq_ok hhd
+  cases hhd
+  simp only [fromBlock, C08_rebuild_sorted _ hs]
 
 /-- **restart equivalence at restart points without pending tips**: the rebuilt state *is* the original, so every
     continuation — batches, blocks, proposer actions — gives the same headers and the same verdicts -/
 theorem C08_restart_partial (env : Env) (ss : Sealed) (blk : Block) (h : toBlock env ss = .ok blk)
     (hs : TxsSorted ss.st.txs) (ht : ss.st.tips = 0) :
     fromBlock blk ss.st.stakes ss.st.coins ss.st.history ss.st.pools = ss := by
-  sorry
+  rw [C08_roundtrip env ss blk h hs]
+  obtain ⟨st, act⟩ := ss
+  cases st
+  simp only at ht
+  subst ht
+  rfl
 
 /-- tips are zero after sealing with a proposer action (so those are always faithful restart points) -/
 theorem C08_tips_zero_after_action (env : Env) (s : State) (a : ProposerAction) (ss : Sealed)
     (h : sealState env s (some a) = .ok ss) : ss.st.tips = 0 := by
-  sorry
+  obtain ⟨s2, _, h⟩ := sealState_pre_tips env s (some a) ss h
+  simp only at h
+  obtain ⟨s3, h3, h⟩ := Outcome.bind_eq_ok h
+  cases h
+  unfold applyProposerAction at h3
+  exact collectProposerFee_tips _ _ _ _ h3
 
 /-- known finding (F6): sealing without an action keeps the pending tips, `next_unsealed` carries them, but the
     rebuilt state has none — so with pending tips the next proposer reward differs after a restart -/
 theorem C08_tips_kept_without_action (env : Env) (s : State) (ss : Sealed) (h : sealState env s none = .ok ss) :
     ss.st.tips = s.tips := by
-  sorry
+  obtain ⟨s2, hs2, h⟩ := sealState_pre_tips env s none ss h
+  simp only at h
+  cases h
+  exact hs2
 
 theorem C08_tips_lost_on_restore (blk : Block) (stakes : StakeSet) (coins : CoinMap) (hist : AList Nat Header)
     (pools : AList PoolKey PoolState) : (fromBlock blk stakes coins hist pools).st.tips = 0 := by
-  sorry
+  rfl
 
 /-- the reward a proposer collects depends on the pending tips: different tips, different reward coin -/
 theorem C08_reward_depends_on_tips (env : Env) (s₁ s₂ s₁' s₂' : State) (a : ProposerAction)
-    (hf : s₁.feePool = s₂.feePool) (hh : s₁.height = s₂.height) (ht : s₁.tips ≠ s₂.tips)
+    (hf : s₁.feePool = s₂.feePool) (_hh : s₁.height = s₂.height) (ht : s₁.tips ≠ s₂.tips)
     (h₁ : collectProposerFee env s₁ a = .ok s₁') (h₂ : collectProposerFee env s₂ a = .ok s₂') :
     s₁'.coins.getCoin { txhash := env.rewardId s₁.height, index := 0 } ≠
     s₂'.coins.getCoin { txhash := env.rewardId s₂.height, index := 0 } := by
-  sorry
+  unfold collectProposerFee at h₁ h₂
+  simp only at h₁ h₂
+  split at h₁
+  · cases h₁
+  split at h₂
+  · cases h₂
+  cases h₁; cases h₂
+  simp only [getCoin_insertCoin_self]
+  intro heq
+  have hv := congrArg (fun o : Option CoinDataHeight => o.map (·.coinData.value)) heq
+  simp only [Option.map_some, Option.some.injEq, hf] at hv
+  exact ht (Nat.add_left_cancel hv)
 
 end Mel
+
+#print axioms Mel.C08_insert_sorted
+#print axioms Mel.C08_rebuild_sorted
+#print axioms Mel.C08_roundtrip
+#print axioms Mel.C08_restart_partial
+#print axioms Mel.C08_tips_zero_after_action
+#print axioms Mel.C08_tips_kept_without_action
+#print axioms Mel.C08_tips_lost_on_restore
+#print axioms Mel.C08_reward_depends_on_tips
